@@ -229,7 +229,7 @@ class World:
         if hasattr(b, "sender"):
             for i, r in b.sender.inflight.items():
                 if r.clazz == "ExecutorShutdown" and r.host in b.sender.hosts:
-                    un[r.host] = "stale" if r.at < now - b.sender.resend_grace else "fresh"
+                    un[r.host] = "stale" if Clock.since(r.at) > b.sender.resend_grace else "fresh"
         if self.phase == "ended":
             un = {h: "none" for h in un}
         return {"phase": self.phase, "known": known, "env": env, "exec": dict(self.exec), "unacked": un, "net": self.bag(),
